@@ -171,9 +171,12 @@ func (w *Worker) Run(item Item) (res ItemResult) {
 	q0, t0 := in.solver.Queries, in.solver.SolveTime
 	in.solver.Errors = nil
 	if w.ObligDir != "" {
-		in.obligLog = func(asserts []*Term) {
+		in.obligLog = func(asserts []*Term, r Result) {
 			w.obligN++
-			name := filepath.Join(w.ObligDir, fmt.Sprintf("%s_%d.smt2", item.Harness, w.obligN))
+			if w.obligN > 2000 {
+				return
+			}
+			name := filepath.Join(w.ObligDir, fmt.Sprintf("%s_%p_%d_%s.smt2", item.Harness, w, w.obligN, r))
 			os.WriteFile(name, []byte(Standalone(in.solver.UFList, asserts)), 0o644)
 		}
 	} else {
